@@ -5,7 +5,7 @@ from harness.coqcases import run_bool_cases
 from harness.flatten import coq_q
 from harness.props._common import run_eval, replay_eval
 
-PROPS_FILES = ["P_C07", "P_C07mx", "P_C07r"]
+PROPS_FILES = ["P_C07", "P_C07mx", "P_C07r", "P_C07f"]
 PROPS_FILE = "P_C07"
 GEN_FILES = ["Gen_rank"]
 COQ_TARGETS = ["CaseLib"]
@@ -57,8 +57,52 @@ def tv(ctx):
     run_bool_cases(ctx, "c07_rank", HEADER, lines, cases, on_fail, shard=400)
 
 
+def structure_monitor(ctx):
+    """shape of LowRankInitialize's definition behind C07_lowrank_assembly / C07_fan_copies: one block on the e low qubits of
+    register b (singular values), then exactly e CNOTs cx(b_j, a_j) pairing the low qubits of the two registers (controls and
+    targets pairwise distinct), then one block on all of register b and one on all of register a; e = log2(rank)."""
+    from qclib.state_preparation import LowRankInitialize
+    from qclib.entanglement import schmidt_decomposition
+    rng = ctx.rng
+    for n in (range(2, 6) if ctx.quick else range(2, 8)):
+        for rep in range(3):
+            size = int(rng.integers(1, n))
+            part = sorted(int(q) for q in rng.choice(n, size=size, replace=False))
+            lr = int(rng.integers(0, 5))
+            v = rng.normal(size=2 ** n) + 1j * rng.normal(size=2 ** n)
+            v /= np.linalg.norm(v)
+            g = LowRankInitialize(v, opt_params={"lr": lr, "partition": part})
+            circ = g.definition
+            rank = schmidt_decomposition(v, part, rank=lr)[0]
+            e = int(round(np.log2(rank)))
+            reg_a = part[::-1]
+            reg_b = sorted(set(range(n)) - set(part))[::-1]
+            mirror = lambda q: n - 1 - q                       # the definition is circuit.reverse_bits()
+            ops = [(i.operation.name, [circ.find_bit(q).index for q in i.qubits]) for i in circ.data]
+            mb, ma = set(mirror(q) for q in reg_b), set(mirror(q) for q in reg_a)
+            want = [[mirror(reg_b[j]), mirror(reg_a[j])] for j in range(e)]
+            if e > 0:
+                head, fanops, tail = ops[0], ops[1:1 + e], ops[1 + e:]
+                ok = sorted(head[1]) == sorted(mirror(q) for q in reg_b[:e]) and head[0] != "cx" \
+                    and [o[1] for o in fanops] == want and all(o[0] == "cx" for o in fanops) \
+                    and len(set(q for p in want for q in p)) == 2 * e
+            else:
+                tail, ok = ops, True
+            # the rest: operations inside register b, then operations inside register a
+            side = ["b" if set(o[1]) <= mb else "a" if set(o[1]) <= ma else "?" for o in tail]
+            ok = ok and "?" not in side and side == sorted(side, reverse=True)
+            cxs = want
+            ctx.monitor("lowrank_structure")
+            ctx.count("monitor:lowrank_structure", key=("lrs", n, tuple(part), lr, v.tobytes()[:64]), nontrivial=True,
+                      sample={"n": n, "partition": part, "lr": lr, "e_bits": e, "cx": cxs} if n == 4 and rep == 0 else None)
+            if not ok:
+                ctx.mismatch("C07 contract: LowRankInitialize's definition is not [singular values on the low qubits of b ; cx(b_j, a_j), j < e ; "
+                             "block on register b ; block on register a]", {"n": n, "partition": part, "lr": lr, "ops": ops[:12]})
+
+
 def run(ctx):
     tv(ctx)
+    structure_monitor(ctx)
     run_eval(ctx, "C07")
 
 
